@@ -561,6 +561,11 @@ impl World {
                                 for c in &nodes {
                                     ops.push(Op::n3(K::Stash, hi, *c, set));
                                 }
+                                if room && hi + 1 < sc.handles && self.sh.handles[hi as usize + 1].is_none() {
+                                    for c in &nodes {
+                                        ops.push(Op::n3(K::StashPair, hi, *c, set));
+                                    }
+                                }
                                 if sc.weak && sc.upgrade_ops {
                                     for h in &nodes {
                                         if self.sh.objs[*h as usize].w.is_some() {
